@@ -1040,7 +1040,17 @@ void addUniquenessFaults(std::vector<Fault> &cat)
                     }
                     bool first = rng.chance(0.5);
                     int order = r.order;
-                    out.push_back(irLoc(rel + "/" + compClass(m, tc) + (first ? "/first" : "/last"),
+                    // does any component above the one that gets the reset carry resets itself?  (a traversal that
+                    // prunes reset-less subtrees is only visible below a reset-less ancestor)
+                    std::string above;
+                    if (m.comps[static_cast<size_t>(tc)].parent >= 0) {
+                        bool all = true;
+                        for (int a = m.comps[static_cast<size_t>(tc)].parent; a >= 0; a = m.comps[static_cast<size_t>(a)].parent) {
+                            all = all && !m.comps[static_cast<size_t>(a)].resets.empty();
+                        }
+                        above = all ? "/below-components-with-resets" : "/below-a-component-without-resets";
+                    }
+                    out.push_back(irLoc(rel + "/" + compClass(m, tc) + above + (first ? "/first" : "/last"),
                                         "new reset on variable '" + tv + "' of component #" + std::to_string(tc) + " with the order " + std::to_string(order) + " of reset " + std::to_string(ri) + " of component #" + std::to_string(ci) + " (" + rel + ", distance " + std::to_string(kv.second) + ")",
                                         [=](IrModel &f) {
                                             auto &rs = f.comps[static_cast<size_t>(tc)].resets;
